@@ -54,6 +54,14 @@ fn enforce_constraints_fd<U: User, E: Engine<U>>(x: LTerm<U, E>) -> Goal<U, E> {
         state | {
             state.verify_all_bound();
             let bound_x = state.dstore_ref().keys().cloned().collect::<LTerm<U, E>>();
+            #[cfg(feature = "verif")]
+            let bound_x = {
+                let _scope = crate::verif::scope("enforce_constraints_fd");
+                let keys: Vec<LTerm<U, E>> = bound_x.iter().cloned().collect();
+                crate::verif::order(keys, |k| crate::verif::term_key(k))
+                    .into_iter()
+                    .collect::<LTerm<U, E>>()
+            };
             proto_vulcan!( onceo { force_ans(bound_x) } ).solve(engine, state)
         }
     ])
